@@ -121,7 +121,7 @@ structure Similar (A : Alg D) (m0 m1 : M D) : Prop where
   lc : ∀ j, ((m1.ctxs j).last || (m1.ctxs j).complete) = ((m0.ctxs j).last || (m0.ctxs j).complete)
 
 theorem ResubmitPost.trans_similar {A : Alg D} {m0 m1 m' : M D} {r1 r : Option Cid} (c : Cid)
-    (hp : ResubmitPost A m1 m' r1 r) (hs : Similar A m0 m1)
+    (hp : ResubmitPost A m1 m' r1 r) (hs : Similar A m0 m1) (hlen : m1.slots.length = m0.slots.length)
     (hin : (∀ j, (m0.ctxs j).processing = true → (m0.ctxs j).lane ≠ none ∨ some c = some j) →
            (∀ j, (m1.ctxs j).processing = true → (m1.ctxs j).lane ≠ none ∨ r1 = some j)) :
     ResubmitPost A m0 m' (some c) r :=
@@ -130,7 +130,9 @@ theorem ResubmitPost.trans_similar {A : Alg D} {m0 m1 m' : M D} {r1 r : Option C
    fun h => hp.inflight (hin h),
    fun j hj => by rw [← hs.proc j]; exact hp.proc_mono j hj,
    fun j => (hp.lc j).trans (hs.lc j),
-   fun c' hc' => by rw [← hs.proc c']; exact hp.ret_proc c' hc'⟩
+   fun c' hc' => by rw [← hs.proc c']; exact hp.ret_proc c' hc',
+   fun j hj => hp.proc_keep j (by rw [hs.proc j]; exact hj),
+   hp.slots_len.trans hlen⟩
 
 theorem similar_setCtx (A : Alg D) (m : M D) (c : Cid) (x y : Ctx D)
     (h1 : settle A y = settle A x) (h2 : y.error = x.error) (h3 : y.total = x.total)
@@ -208,7 +210,7 @@ theorem submitTail_post (A : Alg D) (hB : 0 < A.B) (m : M D) (c : Cid) (x2 : Ctx
         (fun j => shape_of_sameUser (hsu j) (hs1 j))
         (fun r' h => ⟨mgrSubmit_ret A.f _ c _ r' h,
           mgrSubmit_ret_proc A.f _ c _ hok1 (by rw [hc1]; exact h3l) (by rw [hc1]; exact h3p) r' h⟩)
-      apply hpost.trans_similar c
+      apply hpost.trans_similar c (hlen := by rw [mgrSubmit_slots_len]; rfl)
       · refine ⟨fun j => ?_, fun j => ?_, fun j => ?_, fun j => ?_, fun j => ?_⟩
         · rw [mgrSubmit_settle A _ c _ hok1.free_ne]
           by_cases hj : j = c
@@ -245,7 +247,7 @@ theorem submitTail_post (A : Alg D) (hB : 0 < A.B) (m : M D) (c : Cid) (x2 : Ctx
       have hpost := resubmit_post A hB _ _ _ res hres (hok2 x3 h3l)
         (hshape x3 ⟨hlt, fun _ => h3inc hlt, fun h => by simp [h3c] at h, fun h => by simp [h3p] at h⟩)
         (hstart x3 h3l h3p)
-      apply hpost.trans_similar c (similar_setCtx A m c x2 x3 h3settle h3e h3t (by rw [h3p, hp]) (by rw [h3last, h3c, hc]))
+      apply hpost.trans_similar c (similar_setCtx A m c x2 x3 h3settle h3e h3t (by rw [h3p, hp]) (by rw [h3last, h3c, hc])) rfl
       intro hin j hj
       by_cases hjc : j = c
       · right; rw [hjc]
